@@ -67,7 +67,7 @@ class C10(framework.PropertyCheck):
                 pos = rng.choice(['top', 'list', 'quote', 'offset', 'slice', 'slice2', 'nested'])
                 yield {'k': 'lit', 'tok': tok, 'v': v, 'pos': pos}
             elif k == 3:
-                s = rng.choice(gen_reader.STRINGS) if rng.random() < 0.5 else ''.join(rng.choice('ab "\\\n\t;()xyz09%\'') for _ in range(rng.randint(0, 12)))
+                s = rng.choice(gen_reader.STRINGS) if rng.random() < 0.5 else ''.join(rng.choice('ab "\\\\\n\t;()ntr09%\'') for _ in range(rng.randint(0, 12)))
                 yield {'k': 'str', 'chars': s}
             elif k in (4, 5):
                 yield {'k': 'layout', 'toks': g.sexpr(rng.randint(1, 4)), 'seed': rng.randrange(1 << 30)}
